@@ -5,7 +5,7 @@ from .common import Exc
 
 SCHEMES = ["http://", "https://", "HTTP://", "hTTps://", "ftp://", "//", ""]
 USERINFO = ["", "", "", "u@", "u:p@", "u:@", ":p@", "%75:p%40@", "u%3A:p@", "é:p@", "a b@"]
-HOSTS = ["x.com", "X.COM", "www.x.com", "lemonde.fr", "café.fr", "xn--caf-dma.fr", "CAFÉ.fr", "a.b.co.uk", "127.0.0.1", "[::1]", "localhost", "m.x.com", "forum-m.x.com"]
+HOSTS = ["x.com", "X.COM", "www.x.com", "lemonde.fr", "café.fr", "xn--caf-dma.fr", "CAFÉ.fr", "blog.télérama.xn--p1ai", "xn--tlrama-bvab.xn--ii.fr", "xn--caf-dma.café.fr", "a.b.co.uk", "127.0.0.1", "[::1]", "localhost", "m.x.com", "forum-m.x.com"]
 PORTS = ["", "", "", ":80", ":443", ":8080", ":0", ":65535"]
 # tokens of the C14 alphabet
 TOK = ["a", "Z", "1", "é", " ", "%41", "%c3%a9", "%C3%A9", "%20", "%2F", "%3F", "%23", "%26", "%3D", "%40", "%3A", "%25", "%2B", "%2541", "%E9",
@@ -69,8 +69,8 @@ def gen_fragment(rng):
 H_IRRELEVANT = ["www", "www2", "m", "mobile", "amp", "AMP", "Www", "M"]
 H_AMPDASH = ["amp-", "AMP-", "Amp-", "amp-amp-"]
 H_LANG = ["fr", "en-gb", "fr-FR", "de", "be", "EN", "us", "pt-br", "zz", "english"]
-H_NAME = ["x", "lemonde", "café", "xn--caf-dma", "forum-m", "a-www", "madame", "amp", "m", "www", "fr", "facebook", "youtube", "wikipedia"]
-H_SUFFIX = ["com", "fr", "co.uk", "blogspot.com", "github.io", "uk.com", "com.au", "kawasaki.jp", "ck", "org", "FR", "uk"]
+H_NAME = ["x", "lemonde", "café", "xn--caf-dma", "xn--ii", "télérama", "XN--CAF-DMA", "forum-m", "a-www", "madame", "amp", "m", "www", "fr", "facebook", "youtube", "wikipedia"]
+H_SUFFIX = ["com", "fr", "co.uk", "xn--p1ai", "рф", "xn--fiqs8s", "blogspot.com", "github.io", "uk.com", "com.au", "kawasaki.jp", "ck", "org", "FR", "uk"]
 
 
 def gen_host(rng):
@@ -209,7 +209,7 @@ def gen_su(rng, hosts=None, schemes=("http://", "https://")):
     f = None
     if rng.random() < 0.4:
         f = "".join(rng.choice(SAFE_TOK) for _ in range(rng.choice([1, 2])))
-    return SU(rng.choice(list(schemes)), rng.choice(["", "", "u:p@", "u@"]), rng.choice(hosts or ["x.com", "lemonde.fr", "café.fr", "a.b.co.uk"]),
+    return SU(rng.choice(list(schemes)), rng.choice(["", "", "u:p@", "u@"]), rng.choice(hosts or ["x.com", "lemonde.fr", "café.fr", "a.b.co.uk", "blog.télérama.рф"]),
               rng.choice(["", "", ":8080"]), segs, rng.random() < 0.4, q, f)
 
 
@@ -217,7 +217,9 @@ def _flip_case(s, rng):
     return "".join(c.upper() if c.islower() and rng.random() < 0.6 else c for c in s)
 
 
-PUNY = {"café.fr": "xn--caf-dma.fr", "münchen.de": "xn--mnchen-3ya.de"}
+PUNY = {"café.fr": ["xn--caf-dma.fr"], "münchen.de": ["xn--mnchen-3ya.de"],
+        # mixed spellings: some labels in punycode, some in unicode
+        "blog.télérama.рф": ["blog.télérama.xn--p1ai", "blog.xn--tlrama-bvab.рф", "blog.xn--tlrama-bvab.xn--p1ai", "BLOG.XN--TLRAMA-BVAB.рф"]}
 
 
 def spelling_variants(su, rng):
@@ -251,8 +253,8 @@ def spelling_variants(su, rng):
                 v.fragment = v.fragment.replace("a", "%61", 1); out.append(("escaped unreserved in fragment", v.render()))
     if "é" in su.render():
         out.append(("escaped non-ASCII", su.render().replace("é", "%C3%A9").replace(su.host.replace("é", "%C3%A9"), su.host) if "é" not in su.host else su.render()))
-    if su.host in PUNY:
-        v = su.copy(); v.host = PUNY[su.host]; out.append(("punycode host", v.render()))
+    for alt in PUNY.get(su.host, []):
+        v = su.copy(); v.host = alt; out.append(("punycode host " + alt, v.render()))
     out.append(("surrounding whitespace", "  " + su.render() + "\t\n"))
     r = su.render()
     k = len(su.scheme) + 1
